@@ -318,6 +318,18 @@ def sib_export(ctx: Ctx) -> List[Ob]:
             ra = recs[0].args
             ok = ok and len(ra) >= 3 and norm(ra[0]) == gp and norm(ra[2]) == cv and any(v_ is calls[0] for v_ in reaching_values(ctx, f, recs[0], ra[1]))
     O(f, "rdf: each child is added below this node's graph node and recursed into once", ok, "edges must follow the tree's parent-child relation")
+    # the graph node of a child is an rdflib term (a Literal of the data_id): its truth value is the truth value of the
+    # id, so 0 / '' / False ids are falsy although the node exists
+    bad = None
+    for lp in lps:
+        gv = {norm(t) for x in ast.walk(lp) if isinstance(x, ast.Assign) and isinstance(x.value, ast.Call) and norm(x.value.func) == "_add_child_node" for t in x.targets}
+        for x in ast.walk(lp):
+            if isinstance(x, (ast.Continue, ast.Break, ast.Return)) or (isinstance(x, ast.Call) and norm(x.func) == "_add_child_nodes"):
+                for e, pol in path_conds(ctx, f, x):
+                    if isinstance(e, ast.Name) and e.id in gv:
+                        bad = x
+    O(f, "rdf: descent does not depend on the truth value of the child's graph node", None if not lps else bad is None,
+      "the graph node is a Literal of the data_id: a node whose id is 0, '' or False is falsy, its branch would be skipped", bad)
     return obs
 
 
